@@ -694,6 +694,9 @@ func (v *Verifier) step(st *State, instr ssa.Instruction) bool {
 		if c.IsFalse() {
 			return v.jump(st, fb)
 		}
+		if st.initMod {
+			unsup("package initialiser branches on a non-constant condition at %s: %s", v.P.Prog.Fset.Position(in.Pos()), truncate(c.String(), 300))
+		}
 		ft := v.feasible(st, c)
 		ff := v.feasible(st, Not(c))
 		if ft && ff {
